@@ -43,6 +43,10 @@ type windowCase struct {
 
 var windowCases = []windowCase{
 	{"update", [][]string{{"gau.afterRead"}, {"gau.beforeLock"}}, []string{"update"}},
+	// B is TWO requests of two other clients, both complete while A is held before its store: a write that re-sends
+	// the state the register is in (a heartbeat: value-equal, so A's re-validation passes and A is stored on top), then a
+	// seeded Pull. Three parties: the stream is seeded with a value stored AFTER A entered its write and must still show A
+	{"update", [][]string{{"gau.afterRead"}, {"gau.beforeLock"}}, []string{"resend+open"}},
 	{"update", [][]string{{"bus.send.afterSnapshot"}, {"bus.send.beforeListener"}, {"listener.send.locked"}, {"bus.collect.scanned"}}, []string{"open", "cancel"}},
 	{"open", [][]string{{"value.onUpdate.beforeListen", "coll.onUpdate.beforeListen"}, {"bus.listen.beforeRegister"}}, []string{"update", "cancel"}},
 	{"cancel", [][]string{{"listener.stop.enter"}, {"listener.stop.closed"}}, []string{"update", "open"}},
@@ -162,8 +166,9 @@ func (s *session) windowRound(c windowCase, points []string, b string) {
 		doneA          = make(chan callRes, 1)
 		openA          *opened
 	)
+	seededOnly := false
 	open := func() *opened {
-		mask, uo := s.randMask(t.resource, 50, true), s.r.Intn(4) == 0
+		mask, uo := s.randMask(t.resource, 50, true), s.r.Intn(4) == 0 && !seededOnly
 		st, op, failure := s.openStream(mask, uo, nil)
 		if st == nil {
 			s.obs("openerr", s.violate("Pull/open-failed", "opening a Pull stream failed", "a stream", failure))
@@ -238,6 +243,16 @@ func (s *session) windowRound(c windowCase, points []string, b string) {
 			out, pm := s.call("Update"+t.X, reqB)
 			doneB <- callRes{out, pm}
 		}()
+	case "resend+open":
+		resend := newMsg(t.resource).Interface()
+		if s.cur != nil && s.r.Intn(3) != 0 {
+			resend = proto.Clone(s.cur)
+		}
+		reqB, payloadB, opB = s.craftUpdate(resend, nil)
+		go func() {
+			out, pm := s.call("Update"+t.X, reqB)
+			doneB <- callRes{out, pm}
+		}()
 	case "open":
 		if openB = open(); openB == nil {
 			return
@@ -252,11 +267,23 @@ func (s *session) windowRound(c windowCase, points []string, b string) {
 		}
 	}
 	var rA, rB callRes
-	if b == "update" {
+	bUpdates := b == "update" || b == "resend+open"
+	if bUpdates {
 		select {
 		case rB = <-doneB:
 		case <-time.After(250 * time.Millisecond):
 			bWaited = true // B waits for something A holds
+		}
+	}
+	if b == "resend+open" && !bWaited {
+		// the second request of B: a seeded Pull, opened once the re-sent state is stored; A stays held until its seed
+		// has arrived (so the seed is the value stored by the write above, whatever A does afterwards)
+		seededOnly = true
+		if openB = open(); openB == nil {
+			return
+		}
+		for t0 := time.Now(); len(openB.st.ch) == 0 && time.Since(t0) < time.Second; {
+			time.Sleep(200 * time.Microsecond)
 		}
 	}
 	letGo()
@@ -268,7 +295,7 @@ func (s *session) windowRound(c windowCase, points []string, b string) {
 			return
 		}
 	}
-	if b == "update" && bWaited {
+	if bUpdates && bWaited {
 		select {
 		case rB = <-doneB:
 		case <-time.After(3 * time.Second):
@@ -280,7 +307,15 @@ func (s *session) windowRound(c windowCase, points []string, b string) {
 	s.mon.Count("window-forced:" + label)
 	note := fmt.Sprintf(" [window %s]", label)
 
-	if c.a == "update" && b == "update" {
+	if c.a == "update" && bUpdates {
+		// the stream B opened after its write (resend+open): an ordinary new seeded stream of the register as B's write
+		// left it; the held Update, stored afterwards, is owed to it like to any other stream
+		adoptB := func() {
+			if openB != nil && !s.failed {
+				s.mon.Count("window-three-parties:seeded-between-begin-and-store")
+				s.adoptStream(openB.st, openB.op+note+" [opened after the write above, while the Update below was still held before its store]", openB.mask, openB.uo)
+			}
+		}
 		// A had not stored anything when B ran: two register writes one after the other, B first (A first when B was
 		// seen to wait for A: a model that holds a lock of its own around the write)
 		type upd struct {
@@ -304,15 +339,22 @@ func (s *session) windowRound(c windowCase, points []string, b string) {
 			s.trace = append(s.trace, stepDesc{s.step, first.op, "error: " + status.Code(err).String()})
 			s.mon.Count("update-error:" + status.Code(err).String())
 			s.obs("upderr", "ok")
-			s.finishUpdate(second.payload, second.op, second.r.out, second.r.pm)
+			adoptB()
+			if !s.failed {
+				s.finishUpdate(second.payload, second.op, second.r.out, second.r.pm)
+			}
 		case ok1 && ok2:
 			// both stored: both events are on their way by now, so both are expected before anything is read
 			s.noDrain = true
 			s.finishUpdate(first.payload, first.op, first.r.out, first.r.pm)
+			adoptB()
 			s.noDrain = false
-			s.finishUpdate(second.payload, second.op, second.r.out, second.r.pm)
+			if !s.failed {
+				s.finishUpdate(second.payload, second.op, second.r.out, second.r.pm)
+			}
 		default:
 			s.finishUpdate(first.payload, first.op, first.r.out, first.r.pm)
+			adoptB()
 			if !s.failed {
 				if err, _ := second.r.out[1].Interface().(error); second.r.pm == "" && err != nil {
 					s.mon.Count("window-second-rejected:" + status.Code(err).String())
